@@ -45,13 +45,21 @@ def getT : MT WorldT := fun w => (.ok w, w)
 def modifyT (f : WorldT → WorldT) : MT Unit := fun w => (.ok (), f w)
 def emitT (e : EvT) : MT Unit := modifyT fun w => { w with trace := w.trace ++ [e] }
 
+/-- the events up to and including the close of the control connection -/
+def uptoClose : List Ev → List Ev
+  | [] => []
+  | e :: rest => if e = .ctlClose then [e] else e :: uptoClose rest
+
 /-- run a program of the plain model; its events are recorded with the current state of the control channel -/
 def lift {α} (m : M α) : MT α := fun w =>
   let (r, b) := m { w.base with trace := [] }
-  let w' : WorldT := { w with base := { b with trace := w.base.trace }, trace := w.trace ++ b.trace.map (EvT.ev w.ctlTls) }
   -- the 421 branch of control_connection::recv closes the connection through the SSL layer as well: when the peer
   -- has gone without answering the close-notify, the TLS shutdown reports an error - after the socket was closed
-  if w.ctlSsl && w.base.connected && !b.connected && !w.peerAnswersCloseNotify then (.throw, w') else (r, w')
+  -- and before the reply is passed on (the observers are not told)
+  let closeFails := w.ctlSsl && w.base.connected && !b.connected && !w.peerAnswersCloseNotify
+  let evs := if closeFails then uptoClose b.trace else b.trace
+  let w' : WorldT := { w with base := { b with trace := w.base.trace }, trace := w.trace ++ evs.map (EvT.ev w.ctlTls) }
+  if closeFails then (.throw, w') else (r, w')
 
 def scopedT {α} (body : MT α) (cleanup : MT Unit) : MT α := fun w =>
   match body w with
@@ -136,7 +144,8 @@ def ctlCloseT : MT Unit := do
   fun w' => ((lift ctlClose) { w' with peerAnswersCloseNotify := true }).map id (fun x => { x with peerAnswersCloseNotify := w'.peerAnswersCloseNotify })
   -- a TLS shutdown on an engine that never completed its handshake, or whose peer has gone without answering the
   -- close-notify, reports an error - after the socket was closed
-  if w.ctlSsl && (!w.ctlTls || !w.peerAnswersCloseNotify) then throwT
+  -- ... as does a shutdown while application data of the peer is still unread in the TLS stream
+  if w.ctlSsl && (!w.ctlTls || !w.peerAnswersCloseNotify || !w.base.net.stream.isEmpty) then throwT
 
 def logoutT : MT Reply := do
   let r ← lift (simple "REIN" none)
